@@ -418,6 +418,9 @@ func c04Check(env *core.Env, cc core.Case) core.Verdict {
 func c04Gen(r *rand.Rand) *c04Case {
 	c := &c04Case{Kind: core.Pick(r, "unix", "unix", "windows"), Surround: core.Pick(r, "bare", "bare", "entries", "nested", "include", "bare", "bare", "entries", "nested", "include", "behind-long-line"), Seed: r.Int63()}
 	letters := "abcdefghijklmnopqrstuvwxyz0123456789"
+	if core.Chance(r, 1, 4) {
+		letters = "abcdefghijklmnopqrstuvwxyzCEMPSU0123456789" // CertUtil, MSBuild, PowerShell: words are matched as they are written
+	}
 	word := func() string {
 		n := 1 + r.Intn(10)
 		var sb strings.Builder
